@@ -31,7 +31,7 @@ def _arena_sig(tr):
     for e in evs:
         if e['e'] in ('Stuck', 'Crash', 'Terminate'):
             return 'arena:%s:%s' % (sc, e['e'].lower())
-    i = vlib.first_unexplained(SD, 'TraceArena', 'TraceArena.cfg', evs, 'c16')
+    i = vlib.first_unexplained(SD, 'TraceArena', 'TraceArena.cfg', evs, 'c16', linear=True)
     if i is None:
         return 'arena:%s:?' % sc
     e = evs[i]
